@@ -6,6 +6,7 @@ R05c covered index set: linear scan 1..nd-1 + end state / bisection queue schema
 R05d both overloads take nd from validSegmentCount(s1, s2) of the same space, in parameter order
 R05e validSegmentCount = factor * ceil(distance / longest); compound = max over all components
 """
+import re
 from engine import facts, paths, lin
 from engine.facts import AnalysisBroken, src
 
@@ -618,11 +619,65 @@ def r05c(rep, F, fns):
                 'a path returns true without a successful isValid(s2)' if bad else
                 'every path that may return true has seen isValid(s2) succeed (%d exit states)' % len(cl.exits),
                 bad[0] if bad else None)
+        if three:
+            so = ScanOrderClient(s2)
+            paths.run_function(fn, so, F)
+            rep.add('R05c', label, '3arg:end-state-after-scan', not so.bad, fn.where(so.bad[0][0]) if so.bad else fn.loc,
+                    'an interior point is examined after the end state: an end-state failure then reports (nd-1)/nd even '
+                    'though an earlier subdivision point may be invalid' if so.bad else
+                    'the end state is examined only after the interior scan', so.bad[0][1] if so.bad else None)
         bad = [p for (rv, p) in cl.failexits if rv is not False]
         rep.add('R05c', label, ('3arg' if three else '2arg') + ':failure-propagates', not bad, fn.loc,
                 'a path on which an interior validity check failed can still return true' if bad else
                 'every path through a failed validity check returns false (%d exit states)' % len(cl.failexits),
                 bad[0] if bad else None)
+
+
+class ScanOrderClient(paths.Client):
+    """3-argument form: the end state may only be examined after the interior scan (otherwise an end-state failure
+    reports (nd-1)/nd although an earlier subdivision point is invalid)"""
+
+    def __init__(self, s2):
+        self.s2 = s2
+        self.bad = []
+
+    def init(self, fn):
+        return False
+
+    def on_node(self, fn, node, auto, ctx):
+        if node.get('callee') in ISVALID and len(node['ch']) > 1:
+            a = fn.strip(node['ch'][1])
+            k = '%s#%d' % (a.get('name'), a.get('did')) if a is not None and a['k'] == 'DeclRefExpr' else None
+            if k == self.s2:
+                return True
+            if auto:
+                self.bad.append((node['id'], ctx.path()))
+        return auto
+
+
+def interp_extras(fn):
+    """for sibling agreement: callee + initial values of the extra (cache) arguments handed to interpolate()"""
+    out = []
+    decl = {}
+    for ds in _find(fn, 'DeclStmt'):
+        for d in ds.get('decls', []):
+            decl['%s#%d' % (d['name'], d['did'])] = fn.fp(d['init']) if d.get('init') else '<default>'
+    for c in fn.walk():
+        if c.get('callee', '').endswith('::interpolate'):
+            a = _args(fn, c)
+            extras = []
+            for x in a[3:-1]:
+                k = _key(fn, x)
+                if k is None:
+                    # e.g. *path
+                    n = fn.strip(x)
+                    while n is not None and n['k'] in ('UnaryOperator', 'CXXOperatorCallExpr') and n['ch']:
+                        n = fn.strip(n['ch'][0])
+                    k = ('%s#%d' % (n.get('name'), n.get('did'))) if n is not None and n['k'] == 'DeclRefExpr' else None
+                init = decl.get(k, '<not a local>')
+                extras.append(re.sub(r'#\d+', '', init))
+            out.append((c['callee'], c.get('csig'), tuple(extras)))
+    return sorted(set(out))
 
 
 class EndStateClient(paths.Client):
@@ -800,5 +855,17 @@ def run(rep):
     r05b(rep, F, counting)
     rep.rule('R05d', 'both overloads obtain nd from validSegmentCount(s1, s2) with the arguments in parameter order')
     r05c(rep, F, counting)
+    # sibling agreement between the two overloads of each validator (E8)
+    byrec = {}
+    for f in counting:
+        byrec.setdefault((f.record, f.targs), []).append(f)
+    for (rec, targs), fs in sorted(byrec.items()):
+        if len(fs) != 2:
+            continue
+        a, b = interp_extras(fs[0]), interp_extras(fs[1])
+        ok = a == b and bool(a)
+        rep.add('R05d', rec + ('<' + targs + '>' if targs else ''), 'overloads-interpolate-alike', ok, fs[0].loc,
+                'both overloads interpolate through the same routine with identically initialised cache arguments %s' % (a,)
+                if ok else 'the two overloads interpolate differently (they can disagree on the verdict): %s vs %s' % (a, b))
     r05_states_overload(rep, F)
     r05e(rep, F)
